@@ -25,7 +25,7 @@ CLAIMS = {
    ref="4/C10"),
  "C15": dict(
    text="Bounded symbolic execution of the real runner.Run and Generator.Generate with every pipeline stage summarised by an arbitrary result/error and the file system, stdout and formatters as effect-recording nondeterministic stubs: for every flag valuation and every subset of stage failures the effect trace contains only the log open (iff -log, first) and at most one whole-file write of the formatted bytes to the output path, iff not dry-run and everything succeeded, as the last file-system effect. Counterexamples are replayed end-to-end with the built binary (directory snapshot before/after).",
-   note=TB+"C12LoaderHook adds: an output path naming the input file itself (os.SameFile symbolic: any spelling, hard or symbolic link) is rejected by NewParser, i.e. before any write. Assumes the stage summaries (stages have no file-system effect of their own; GOCACHE writes by go list and atomicity of os.WriteFile are outside).",
+   note=TB+"C12LoaderHook adds: an output path naming the input file itself (os.SameFile symbolic: any spelling, hard or symbolic link) is rejected by NewParser, i.e. before any write. Assumes the stage summaries (stages have no file-system effect of their own; GOCACHE writes by go list and atomicity of os.WriteFile are outside). Round 5: standard output may reject the print (symbolic error; /dev/full in the replay), the rename may fail at the last step (output path is a directory), os.LookupEnv modelled.",
    technique="SMT-guided symbolic execution of go/ssa with effect-trace stubs; end-to-end replay of models with the built binary",
    ref="4/C15"),
  "C18": dict(
@@ -55,22 +55,22 @@ CLAIMS = {
    ref="4/C17"),
  "C09": dict(
    text="Symbolic execution of the real notation pipeline (findConvergenEntries, parseMethods, parseMethod, parseNotationInComments, Options copies) on a 2x2 interface/method skeleton for every placement of ON/OFF notations of all six toggle families and of list notations, compared against a reference fold of the README's scoping rule; non-interference of other toggles, other methods and other interfaces; append-aliasing of option slices; case-rule override seen through ShouldSkip.",
-   note=TB+"Programs: skeleton scope; notation texts from menus (28800 combinations).",
+   note=TB+"Programs: skeleton scope; notation texts from menus (28800 combinations). Round 5: C09CrossMethod on skeleton cross; C17Selection for methods inherited from a same-file interface; interface-level :skip lines in the scope menu.",
    technique="symbolic execution of go/ssa with native go/types bridge; exhaustive slot exploration against a reference model; native replay",
    ref="4/C09"),
  "C14": dict(
    text="Symbolic execution of the real front half on skeleton packages (native go/types objects) for every entry of a menu of 96 malformed / misplaced / wrongly-shaped notations and referenced function signatures, combined with toggles: Go run-time panics are first-class outcomes of the executor (nil dereference, index, slice, makeslice, type assertion, native panics inside go/types calls) and an implicit obligation on every path; rejection must carry a positioned diagnostic; success must keep every method. Plus -out = input. Counterexamples are replayed natively on the materialised skeleton.",
-   note=TB+"Programs: skeletons bad/basic/dup/sel; C14MainReports runs the REAL main() (harness injected into package main by overlay) with every stage summarised: every non-zero exit is preceded by a message on standard error. Notation texts from menus, plus C14NotationBytes: the real parseNotationInComments on one notation line whose ARGUMENT TEXT is an arbitrary ASCII byte string of up to 4 (thorough 5) bytes (reNotation run by a leftmost-first backtracking matcher whose character-class tests on symbolic bytes are path decisions; go/parser.ParseExpr on symbolic text is an arbitrary consistent predicate). Panics/hangs inside go/packages, imports, regexp are outside.",
+   note=TB+"Programs: skeletons bad/basic/dup/sel; C14MainReports runs the REAL main() (harness injected into package main by overlay) with every stage summarised: every non-zero exit is preceded by a message on standard error. Notation texts from menus, plus C14NotationBytes: the real parseNotationInComments on one notation line whose ARGUMENT TEXT is an arbitrary ASCII byte string of up to 4 (thorough 5) bytes (reNotation run by a leftmost-first backtracking matcher whose character-class tests on symbolic bytes are path decisions; go/parser.ParseExpr on symbolic text is an arbitrary consistent predicate). Panics/hangs inside go/packages, imports, regexp are outside. Round 5: C14OddPath (skeleton module in a directory called 'w:1 %d'), C05Logger (real logger package), an additional argument of type error, converters/hooks whose result merely implements error.",
    technique="symbolic execution of go/ssa with native go/types bridge; panic-freedom as path outcome; native replay",
    ref="4/C14"),
  "C04": dict(
-   text="Symbolic execution of the real assignment builder over a 45x45 matrix of Go field-type pairs (native go/types objects) with the four toggles and the match rule as symbolic inputs: every decision is compared with an independent reference matcher written from the property statement on go/types facts (AssignableTo/ConvertibleTo/method sets), including the stand-alone implications (no conversion / String() / getter without opt-in, nothing matched under :match none), and every emitted function is type-checked.",
-   note=TB+"Programs: skeleton types (+ names when registered); field names concrete (arbitrary-string comparison is C19).",
+   text="Symbolic execution of the real assignment builder over a 46x46 matrix of Go field-type pairs (native go/types objects) with the four toggles and the match rule as symbolic inputs: every decision is compared with an independent reference matcher written from the property statement on go/types facts (AssignableTo/ConvertibleTo/method sets), including the stand-alone implications (no conversion / String() / getter without opt-in, nothing matched under :match none), and every emitted function is type-checked.",
+   note=TB+"Programs: skeleton types (+ names when registered); field names concrete (arbitrary-string comparison is C19). Round 5: matrix 46x46 (pointer to interface added); C19IdentMatchers registered for CompareFieldName over all names of the alphabet (byte length of code-point vectors is an integer term).",
    technique="symbolic execution of go/ssa with native go/types bridge; differential against a reference matcher; Go type checker as judge; native replay",
    ref="4/C04"),
  "C05": dict(
    text="Symbolic execution of the real assignment builder on shape skeletons (native go/types objects) for every pair of notations from a 110x13 menu: an independent walker recomputes the reachable destination leaves from go/types and each must be covered by exactly one emitted line (on itself or an enclosing path), members invisible to the package must never be mentioned (incl. a setup package sharing its NAME with the imported one), every no-match must be warned on stderr with a position; plus the 45x45 type matrix. Emitted functions are type-checked.",
-   note=TB+"Programs: skeletons shapes, samename, types; corpus case nested. Destination leaves are enumerated through by-value struct nesting only (paths through pointers are outside), blank fields are no fields, a struct none of whose members is visible is a leaf of its own.",
+   note=TB+"Programs: skeletons shapes, samename, types; corpus case nested. Destination leaves are enumerated through by-value struct nesting only (paths through pointers are outside), blank fields are no fields, a struct none of whose members is visible is a leaf of its own. Round 5: C05Logger executes the REAL logger package (summarised elsewhere) on a model of log.Logger: the warning reaches standard error once and as formatted, with and without -log, also when the position text holds a percent sign or a colon; C09CrossMethod: no state of one method's build reaches another's.",
    technique="symbolic execution of go/ssa with native go/types bridge; independent leaf walker; Go type checker as judge; native replay",
    ref="4/C05"),
  "C06": dict(
@@ -90,17 +90,17 @@ CLAIMS = {
    ref="4/C16"),
  "C02": dict(
    text="Symbolic execution of the GENERATED code: the tool built from the current tree is run on a hand-written corpus at check time, the emitted functions are executed symbolically (operands arbitrary: symbolic scalars, nil-ness of nested pointers, slice lengths 0..2/nil) next to independent hand-written reference functions; the solver decides equality of results, final operand states, returned errors and user-function call traces for all operand values, and absence of Go run-time panics; sampled paths are replayed natively (go test on the real generated code) to validate the encoding.",
-   note=TB+"Programs: the corpus (6 cases, 52 generated functions); integer wrap-around and float arithmetic are not interpreted (conversions uninterpreted on both sides); panics inside user code are outside.",
+   note=TB+"Programs: the corpus (7 cases, 60 generated functions); integer wrap-around and float arithmetic are not interpreted (conversions uninterpreted on both sides); panics inside user code are outside. Round 5: corpus case mix added (7 cases, 60 generated functions: arrays, maps nil or not, pointers to pointers, named slices, struct/error converters, getter chains, templated pointer paths).",
    technique="symbolic execution of the tool's generated code (go/ssa) against reference functions, SMT equality of symbolic results, native replay",
    ref="4/C02"),
  "C12": dict(
    text="Bounded symbolic execution of the code that separates a run from whatever is at the output path: NewParser's ParseFile hook with the loader, file system and Go parser as symbolic environment (the output file's bytes are arbitrary and are proven never to reach the parser; the result does not depend on the output path's state nor on the loaded package's error lists), plus the write discipline of Run/Generate (one whole-file WriteFile after everything succeeded). Together: the only channel from the bytes at the output path into a run is Stat/SameFile. Counterexamples and one validation run are replayed end to end with the built binary (stale, longer, truncated at many points, broken output; twice in a row; -out = input).",
-   note=TB+"The loader overlay that blanks an existing output file is checked under five spellings of the output path (relative, ./, dir/../dir, absolute, another directory); a read of the old content (os.ReadFile, arbitrary bytes) must not change the single whole-file write. Assumed, not decided: go list / packages.Load behave the same whatever same-package bytes the output path holds once the overlay is in place (external process; validated end to end incl. absolute -out and a package clause cut inside the name).",
+   note=TB+"The loader overlay that blanks an existing output file is checked under five spellings of the output path (relative, ./, dir/../dir, absolute, another directory); a read of the old content (os.ReadFile, arbitrary bytes) must not change the single whole-file write. Assumed, not decided: go list / packages.Load behave the same whatever same-package bytes the output path holds once the overlay is in place (external process; validated end to end incl. absolute -out and a package clause cut inside the name). Round 5: the import optimiser must be told the OUTPUT path (it leaves exactly that file unread); regeneration replay adds leftover temporary files, a relative input below the module root over a stale file of another package name, a stale output with a misleading import.",
    technique="SMT-guided symbolic execution of go/ssa with symbolic loader/file system/parser; end-to-end regeneration replay with the built binary",
    ref="4/C12"),
  "C03": dict(
    text="Bounded symbolic execution of the marker planting of GenerateBaseCode with the brace and comment positions as symbolic integers (the solver decides every position comparison; the layout invariant that the printer's comment cursor needs is the obligation; counterexample layouts are rendered byte-exactly as setup files and run through the built binary; on the unchanged tree solver-chosen layouts are validated end to end), plus acceptance of every well-formed notation of the menus, of all documented-legal operand shapes and of every corpus case.",
-   note=TB+"go/printer, the regexp cut and the formatter's re-parse are not encoded: acceptance is established up to the stated layout invariant (an assumption validated end to end, not a verdict).",
+   note=TB+"go/printer, the regexp cut and the formatter's re-parse are not encoded: acceptance is established up to the stated layout invariant (an assumption validated end to end, not a verdict). Round 5: C03DotImport (dot import and renamed import in notations and hook calls; a sibling file that already calls the functions to be generated, i.e. type errors of other files on the interface's line numbers).",
    technique="SMT-guided symbolic execution of go/ssa over symbolic source positions (LIA); end-to-end replay of rendered layouts",
    ref="4/C03 and Part I"),
 }
